@@ -269,7 +269,7 @@ Lemma parse_not_S n e s : parse_not (S n) e s =
   | KLp => match parse_or (parse_not n e) n (advance s) with
            | Some (b, s2) => Some (b, if bytes_eqb (peek s2) rp then advance s2 else fail (advance s2))
            | None => None end
-  | KId => Some (e (peek s), advance s)
+  | KId => Some (lookup e (peek s), advance s)
   | _ => Some (false, fail (advance s))
   end.
 Proof. simpl. destruct (kind_of (peek s)); reflexivity. Qed.
@@ -315,7 +315,7 @@ Ltac lens := repeat rewrite app_length in *; rewrite ?len_not, ?len_and, ?len_or
     (for every sufficient fuel) holds of the loop started before it. *)
 Section Correct.
   Variable e : env.
-  Notation D c := (denote (abstract c) e).
+  Notation D c := (denote (abstract c) (lookup e)).
   Notation PN m := (parse_not m e).
 
   (** a factor is consumed by parseNot *)
@@ -755,7 +755,7 @@ Qed.
 
 (** * MAIN THEOREM: for every expression, every style of writing it and every assignment *)
 Theorem eval_correct : forall sty x e, style_ok sty = true -> idents_ok x = true ->
-  eval_impl (print_text sty x) e = ROk (denote x e).
+  eval_impl (print_text sty x) e = ROk (denote x (lookup e)).
 Proof.
   intros sty x e Hs Hid. destruct (print_wf sty Hs x Hid) as [W A].
   unfold print_text. rewrite <- (app_nil_r (render _)). rewrite <- (app_nil_l (render _ ++ [])).
